@@ -48,7 +48,7 @@ HYPOTHESES, stated plainly.
 -/
 import Sdmmc.Lemmas.AbsFsRemount8
 import Sdmmc.Props.C01Fs
-import Sdmmc.Props.C09Hist
+import Sdmmc.Props.C09HistEx
 
 namespace Sdmmc.Props.C02Fs
 open Sdmmc.Model Sdmmc.Model.Fat Sdmmc.Spec.Volume
